@@ -84,7 +84,7 @@ class Cmp:
     (kind 'b'), or is tested for equality with `boundary` (kind 'eq')."""
 
     __slots__ = ("lhs", "rhs", "kind", "boundary", "loc", "bb", "raw", "lex", "rex", "validating", "switch_bb",
-                 "op", "dest", "nop")
+                 "op", "dest", "nop", "flipped")
 
     def key(self):
         return (self.lhs, self.rhs, self.kind, self.boundary)
@@ -115,10 +115,18 @@ def normalise_cmp(op, a, b, loc="?", bb=None, lty=None):
         a0 = deep_strip(A)
         if a0[0] == "bin" and a0[1] == "Sub" and strip_casts(a0[3])[0] != "const":
             A, B = a0[2], a0[3]
+    if B is not None and op in ("Lt", "Le", "Gt", "Ge"):
+        # `a.saturating_sub(p) < n` / `a - p < n` is `a < p + n` (for the saturating form when n > 0; at n = 0 neither form
+        # lets anything through that the other stops: both are false): one fact for the check written either way
+        a0 = deep_strip(A)
+        if a0[0] == "bin" and a0[1] == "Sub" and strip_casts(a0[3])[0] != "const":
+            y, b0 = a0[3], deep_strip(B)
+            A, B = a0[2], ("bin", "Add", y, b0)      # subtrahend first: `pos + len`
     c = Cmp()
     c.loc = loc
     c.bb = bb
     c.nop = op          # operator after moving a constant operand to the right-hand side
+    c.flipped = False   # lex / rex were exchanged below: `nop` then reads rex NOP lex
     c.raw = "%s %s %s" % (X.render(a), op, X.render(b))
     c.lex, c.rex = A, B
     t = kb - ka     # D = A - B  OP  t
@@ -137,6 +145,7 @@ def normalise_cmp(op, a, b, loc="?", bb=None, lty=None):
         c.lhs, c.rhs, c.kind, c.boundary = la, lb, kind, bnd
     else:
         c.lex, c.rex = B, A
+        c.flipped = kind == "b"
         c.lhs, c.rhs, c.kind = lb, la, kind
         c.boundary = (-bnd + 1) if kind == "b" else -bnd
     return c
